@@ -207,8 +207,14 @@ def check_replace(s, stats, case):
     if type(r) is not type(s) or r.sources is not s.sources or r.upgraded_return_annotation is not s.upgraded_return_annotation:
         stats.fail('C14/replace/signature-noargs', case, '%s.replace() -> %s %r loses type, sources or upgraded return annotation' % (s, type(r).__name__, r))
     r = s.replace(parameters=ps[:-1])
-    if type(r) is not type(s) or r.sources is not s.sources or r.upgraded_return_annotation is not s.upgraded_return_annotation:
-        stats.fail('C14/replace/signature-parameters', case, '%s.replace(parameters=...) loses type, sources or upgraded return annotation' % (s,))
+
+    def kept(r, names):
+        # provenance of what is still there is kept, nothing refers to what was taken away
+        return (all(r.sources.get(k) == s.sources.get(k) for k in list(names) + ['+depths'])
+                and set(r.sources) <= set(names) | {'+depths'})
+    if type(r) is not type(s) or not kept(r, [q.name for q in ps[:-1]]) or r.upgraded_return_annotation is not s.upgraded_return_annotation:
+        stats.fail('C14/replace/signature-parameters', case, '%s.replace(parameters=<all but the last>) loses type, provenance or upgraded return annotation, or keeps '
+                   'provenance of the removed parameter: %r' % (s, sorted(k for k in r.sources if k != '+depths')))
     newsrc = {'+depths': {}}
     mark = signatures.UpgradedAnnotation.preevaluated('MARK')
     r = s.replace(sources=newsrc, upgraded_return_annotation=mark)
@@ -224,8 +230,8 @@ def check_replace(s, stats, case):
     if [(q.name, q.kind) for q in r.parameters.values()] != [(q.name, q.kind) for q in ps]:
         stats.fail('C14/replace/signature-parameters-iterable', case, '%s.replace(parameters=<generator of its own parameters>) -> %s (inspect.Signature accepts any iterable)' % (s, r))
     r = s.replace(parameters=[])
-    if list(r.parameters.values()) != [] or r.sources is not s.sources:
-        stats.fail('C14/replace/signature-override-empty', case, '%s.replace(parameters=[]) -> %s' % (s, r))
+    if list(r.parameters.values()) != [] or not kept(r, []):
+        stats.fail('C14/replace/signature-override-empty', case, '%s.replace(parameters=[]) -> %s with provenance for %r' % (s, r, sorted(k for k in r.sources if k != '+depths')))
     r = s.replace(upgraded_return_annotation=signatures.EmptyAnnotation) if hasattr(signatures, 'EmptyAnnotation') else None
     # a parameter list that mixes the signature's own parameters with a plain inspect.Parameter (deprecated but accepted): only the
     # plain one is new, the others are kept with everything they carry
@@ -261,6 +267,20 @@ def check_replace(s, stats, case):
         r = q.replace(upgraded_annotation=mark, sources=['S'], source_depths={'S': 1})
         if r.upgraded_annotation is not mark or r.sources != ['S'] or r.source_depths != {'S': 1} or r.name != q.name or r.kind != q.kind:
             stats.fail('C14/replace/parameter-override', dict(case, parameter=q.name), 'Parameter %s .replace(upgraded_annotation=, sources=, source_depths=) did not take the overrides' % q)
+    # a replaced annotation is the annotation from then on, also for evaluated()
+    try:
+        if ps and ps[0].replace(annotation='NEW').evaluated().annotation != 'NEW':
+            stats.fail('C14/replace/annotation-then-evaluated', dict(case, parameter=ps[0].name),
+                       'Parameter %s .replace(annotation=\'NEW\').evaluated() is %s' % (ps[0], ps[0].replace(annotation='NEW').evaluated()))
+        others = [q.replace(annotation=q.empty) for q in ps]      # (so that only the return annotation is evaluated)
+        r1 = s.replace(parameters=others, return_annotation='NEWRET').evaluated()
+        r2 = s.replace(parameters=others, return_annotation=s.empty).evaluated()
+        if r1.return_annotation != 'NEWRET' or r2.return_annotation is not s.empty:
+            stats.fail('C14/replace/return-annotation-then-evaluated', case,
+                       '%s: replace(return_annotation=\'NEWRET\').evaluated() -> %r, replace(return_annotation=empty).evaluated() -> %r' % (
+                           s, r1.return_annotation, r2.return_annotation))
+    except Exception as e:
+        stats.fail('C14/replace/annotation-then-evaluated-raised-%s' % type(e).__name__, case, '%s: evaluated() after replacing the annotations raised %s: %s' % (s, type(e).__name__, e))
     try:
         ev = s.evaluated()
     except Exception:
